@@ -98,6 +98,8 @@ func LoadProgram(o LoadOpts) (*Prog, error) {
 	os.Setenv("PATH", shim+string(os.PathListSeparator)+os.Getenv("PATH"))
 	os.Setenv("GOTOOLCHAIN", "local")
 	os.Unsetenv("GOWORK")
+	// an experiment of another toolchain (e.g. GOEXPERIMENT=synctest for go1.24 test runs) must not leak into the analysis
+	os.Unsetenv("GOEXPERIMENT")
 	env := append(os.Environ(),
 		"GOFLAGS=-mod=mod", "GOPROXY=off", "GOSUMDB=off", "GOTOOLCHAIN=local", "GOWORK=off", "CGO_ENABLED=0")
 	if o.GOARCH != "" {
